@@ -16,6 +16,7 @@
    required parts, oversized lists", non-dict specs), and that every shape fact
    the bodies were read to rely on follows from the schema of the kind. *)
 From Koreo Require Import Json Schema Schemas_gen Schema_proofs.
+From Koreo Require Tree Extract Extract_proofs.
 Local Open Scope list_scope.
 Local Open Scope nat_scope.
 
@@ -139,18 +140,14 @@ Proof. vm_compute. repeat split; reflexivity. Qed.
 
 (* ---- "never raises, including for valid expressions of any syntactic
         shape": the dependency extractor every prepare_* runs on each compiled
-        expression is total on well-formed CEL parse trees.
-        Owned by the C14 worker (model/Tree.v, model/Extract.v,
-        proofs/Extract_proofs.v); restated here by import once that file
-        exports it.
-   COORDINATOR: proofs/Extract_proofs.v did not yet export `extract_total`
-   when this file was written; when it does, replace this comment block by
-
-     From Koreo Require Import Tree Extract Extract_proofs.
-     Theorem C20_extract_total : forall t, cel_tree_wf t -> exists S, extract t = Done S.
-     Proof. exact extract_total. Qed.
-     Print Assumptions C20_extract_total.
-   ---- *)
+        expression (structure_extractor.extract_argument_structure, repaired)
+        is total on every well-formed CEL parse tree: it returns a set, it
+        raises nothing.  Model and proof are owned by the C14 worker
+        (model/Tree.v, model/Extract.v, proofs/Extract_proofs.v); imported,
+        not copied. ---- *)
+Theorem C20_extract_total : forall t : Tree.node,
+  Tree.cel_tree_wf t = true -> exists S, Extract.extract t = Extract.Done S.
+Proof. exact Extract_proofs.extract_total. Qed.
 
 Print Assumptions C20_invalid_rejected.
 Print Assumptions C20_gate_total.
@@ -165,3 +162,4 @@ Print Assumptions C20_shape_sound.
 Print Assumptions C20_foreach_condition_refuted.
 Print Assumptions C20_ft_delay_refuted.
 Print Assumptions C20_int64_refuted.
+Print Assumptions C20_extract_total.
